@@ -17,3 +17,4 @@ CHECK_DEADLOCK FALSE
 INVARIANTS
   C04_AllSteps
   C04_NonNegative
+  Compose
